@@ -170,15 +170,15 @@ func runKind(kind string, c *gen.Concrete, m *pb.QuoteV4, raw []byte, vopts *val
 	case "verify":
 		o := []map[string]any{{"gc": false, "cr": false}, {"gc": true, "cr": false}, {"gc": true, "cr": true}}[level%3]
 		opts := VerifyOpts(c, o) // own options per call; the scripted getter is shared and goroutine-safe
-		return Guard(30*time.Second, func() error { return verify.TdxQuote(m, opts) })
+		return Guard(120*time.Second, func() error { return verify.TdxQuote(m, opts) })
 	case "validate":
-		return Guard(30*time.Second, func() error { return validate.TdxQuote(m, vopts) })
+		return Guard(120*time.Second, func() error { return validate.TdxQuote(m, vopts) })
 	case "serialise":
-		return Guard(30*time.Second, func() error { _, err := abi.QuoteToAbiBytes(m); return err })
+		return Guard(120*time.Second, func() error { _, err := abi.QuoteToAbiBytes(m); return err })
 	case "extract":
-		return Guard(30*time.Second, func() error { _, err := verify.ExtractChainFromQuote(m); return err })
+		return Guard(120*time.Second, func() error { _, err := verify.ExtractChainFromQuote(m); return err })
 	case "parse":
-		return Guard(30*time.Second, func() error { _, err := abi.QuoteToProto(raw); return err })
+		return Guard(120*time.Second, func() error { _, err := abi.QuoteToProto(raw); return err })
 	}
 	panic("bad kind " + kind)
 }
